@@ -28,8 +28,9 @@ Proof.
 Qed.
 
 (* the full claim, and its decidable form that the check evaluates *)
-Definition all_sites_classified_full : Prop :=
-  forall s, In s sites -> classification s <> Unclassified /\ order_safe (classification s) = true.
+Definition classified_full (L : list site) : Prop :=
+  forall s, In s L -> classification s <> Unclassified /\ order_safe (classification s) = true.
+Definition all_sites_classified_full : Prop := classified_full sites.
 
 Lemma filter_nil_iff : forall {A} (f : A -> bool) l, filter f l = [] <-> forall x, In x l -> f x = false.
 Proof.
@@ -42,13 +43,16 @@ Proof.
       * intros H x Hx. apply H. right; exact Hx.
 Qed.
 
-Theorem full_iff_no_unsafe_site : all_sites_classified_full <-> unsafe_sites sites = [].
+Lemma full_iff_gen : forall L, classified_full L <-> unsafe_sites L = [].
 Proof.
-  unfold all_sites_classified_full, unsafe_sites. rewrite filter_nil_iff. split.
+  intro L. unfold classified_full, unsafe_sites. rewrite filter_nil_iff. split.
   - intros H s Hs. destruct (H s Hs) as [_ H2]. rewrite H2. reflexivity.
   - intros H s Hs. specialize (H s Hs). apply negb_false_iff in H. split; [|exact H].
     intro E. rewrite E in H. discriminate H.
 Qed.
+
+Theorem full_iff_no_unsafe_site : all_sites_classified_full <-> unsafe_sites sites = [].
+Proof. exact (full_iff_gen sites). Qed.
 
 (* every inventoried site outside the recorded defect classes is invariant under permutation of its iteration *)
 Theorem sites_deterministic_partial : forall s, In s sites -> ~ In (tag_of s) open_defect_tags ->
@@ -61,13 +65,18 @@ Proof.
 Qed.
 
 (* ... and every site whose shape is not order-safe really is order dependent (as a shape) *)
-Theorem unsafe_sites_refuted : forall s, In s (unsafe_sites sites) ->
+Lemma unsafe_refuted_gen : forall L s, In s (unsafe_sites L) ->
   exists p l l', step_commutes p /\ NoDup (map fst l) /\ NoDup (map (span p) l) /\ Permutation l l'
                  /\ ~ obs_eq (consumer p (classification s) l) (consumer p (classification s) l').
 Proof.
-  intros s Hs. apply filter_In in Hs. destruct Hs as [_ H]. apply negb_true_iff in H.
+  intros L s Hs. unfold unsafe_sites in Hs. apply filter_In in Hs. destruct Hs as [_ H]. apply negb_true_iff in H.
   apply unsafe_shapes_refuted; exact H.
 Qed.
+
+Theorem unsafe_sites_refuted : forall s, In s (unsafe_sites sites) ->
+  exists p l l', step_commutes p /\ NoDup (map fst l) /\ NoDup (map (span p) l) /\ Permutation l l'
+                 /\ ~ obs_eq (consumer p (classification s) l) (consumer p (classification s) l').
+Proof. exact (unsafe_refuted_gen sites). Qed.
 
 (* ------------------------------------------------------------------------------------------ *)
 (* non-vacuity instances used by Props/C19.v *)
@@ -94,8 +103,8 @@ Proof.
   unfold ex_l, ex_l'.
   (* [3;9;7;1] ~ [1;7;3;9] *)
   apply Permutation_trans with (l' := [(1, 9); (3, 7); (9, 1); (7, 4)]).
-  - change [(3, 7); (9, 1); (7, 4); (1, 9)] with ([(3, 7); (9, 1); (7, 4)] ++ [(1, 9)]).
-    change [(1, 9); (3, 7); (9, 1); (7, 4)] with ([(1, 9)] ++ [(3, 7); (9, 1); (7, 4)]).
+  - change [(3, 7); (9, 1); (7, 4); (1, 9)] with ([(3, 7); (9, 1); (7, 4)] ++ [(1, 9)])%list.
+    change [(1, 9); (3, 7); (9, 1); (7, 4)] with ([(1, 9)] ++ [(3, 7); (9, 1); (7, 4)])%list.
     apply Permutation_app_comm.
   - apply perm_skip.
     apply Permutation_trans with (l' := [(3, 7); (7, 4); (9, 1)]).
